@@ -154,7 +154,8 @@ func VerifC09_AlreadyDone() {
 		verif.Assert("cancelled_context_kind", err != nil && commonerrors.Any(err, commonerrors.ErrCancelled))
 	}
 	verif.Assert("nothing_changes", len(rec.mutations()) == 0 && vSameTree(before, vSnapshot(rec.inner, "/")))
-	verif.Assert("handles_balanced", rec.opens == rec.closes)
+	// (not a clause of this property -- handle hygiene is C06's -- so observed, not asserted)
+	verif.Observe("handles_balanced", rec.opens == rec.closes)
 }
 
 // VerifC09_MidRun: the context ends after the j-th backend operation: only a
@@ -196,7 +197,7 @@ func VerifC09_MidRun() {
 			verif.Assert("mid_run_kinds", commonerrors.Any(err, commonerrors.ErrCancelled, commonerrors.ErrTimeout))
 		}
 	}
-	verif.Assert("handles_balanced", rec.opens == rec.closes)
+	verif.Observe("handles_balanced", rec.opens == rec.closes)
 }
 
 // VerifC09_LimitedRead: limited file reads refuse larger files.
@@ -211,5 +212,5 @@ func VerifC09_LimitedRead() {
 	} else if size > 0 {
 		verif.Assert("file_within_limit_is_read_whole", err == nil && len(content) == size)
 	}
-	verif.Assert("handles_balanced", rec.opens == rec.closes)
+	verif.Observe("handles_balanced", rec.opens == rec.closes)
 }
